@@ -281,6 +281,9 @@ fn case_strategy(tier: Tier) -> BoxedStrategy<CbcCase> {
             5 => Just(Out::Err(3)),
             // an error the classifier does not count as a failure
             1 => Just(Out::Err(7)),
+            // the classifier itself panics on this one (a bug in user code run under the
+            // circuit's lock): the call is lost, the breaker is as before
+            1 => Just(Out::Err(8)),
             1 => Just(Out::Panic),
         ],
     )
@@ -399,6 +402,9 @@ const FB_BASE: u64 = 5_000_000;
 /// that an error with code 7 is *not* a failure (an "ignored" error: it is recorded as a success).
 type Cls = tower_resilience_circuitbreaker::FnClassifier<fn(&Result<Resp, SErr>) -> bool>;
 fn ignore_code_7(r: &Result<Resp, SErr>) -> bool {
+    if matches!(r, Err(e) if e.code == 8) {
+        std::panic::panic_any(sim::ScriptedPanic);
+    }
     matches!(r, Err(e) if e.code != 7)
 }
 type Fb = CircuitBreakerWithFallback<Scripted, Cls, Req, Resp, SErr>;
@@ -693,6 +699,17 @@ async fn interp(case: &CbcCase) -> Verdict {
     let mut saw_over_permitted = false;
     let mut half_open_periods = 0usize;
     let mut running: HashSet<u64> = HashSet::new();
+    let classifier_panics: HashSet<u64> = snap
+        .iter()
+        .filter_map(|e| match e {
+            Ev::Enter { serial, req, .. }
+                if (req.id as usize) < n && matches!(callers[req.id as usize].step.out, Out::Err(8)) =>
+            {
+                Some(*serial)
+            }
+            _ => None,
+        })
+        .collect();
     for e in &snap {
         match e {
             Ev::Note {
@@ -778,6 +795,11 @@ async fn interp(case: &CbcCase) -> Verdict {
             }
             Ev::Done { serial, .. } => {
                 running.remove(serial);
+                // a call whose classification panics is recorded neither as success nor as
+                // failure: its trial slot is simply given back
+                if classifier_panics.contains(serial) && period_serials.remove(serial) {
+                    abandoned += 1;
+                }
             }
             Ev::Dropped { serial, .. } | Ev::Panicked { serial, .. } => {
                 running.remove(serial);
